@@ -1,4 +1,5 @@
 # -*- coding: utf-8 -*-
+import math
 from . import dispatcher
 from . import error
 from . import utils
@@ -21,5 +22,10 @@ def PV(rate, periods, payment, future=None, type=None):
     if rate == 0:
         return -payment * periods - future
     else:
-        rate_exp_periods = (1 + rate)**periods
-        return (((1 - rate_exp_periods) / rate) * payment * (1 + rate * type) - future) / rate_exp_periods
+        if rate > -1:
+            # (1 + rate)**periods - 1 without cancellation: for small rates the difference
+            # of two numbers close to 1 loses most of its digits (rate 1e-9: 7 of 16)
+            growth = math.expm1(periods * math.log1p(rate))
+        else:
+            growth = (1 + rate)**periods - 1
+        return ((-growth / rate) * payment * (1 + rate * type) - future) / (1 + growth)
